@@ -127,6 +127,22 @@ CLAIMED = {
    note="zstd framing and decoding are executed leaves (independent frame walker, two implementations).",
    technique="TLA+ spec checked by TLC; trace validation of histories on a shared directory; differential decoding with libzstd",
    design="4/C20"),
+ "C13": dict(
+   text="Catar.tla is the archive format as an attributed grammar: a pushdown recogniser over element tokens checking contiguous offsets, size fields, element "
+        "order, sorted children and xattrs, and every goodbye table (items = children's back-offsets/sizes/name hashes laid out as a complete BST in array form, "
+        "tail item), and rebuilding the node list. TLC checks the BST layout for all n <= 200-600. Archives written by the real Tar from random trees built as "
+        "root (all attribute kinds), from every fan-out, from disk and from tar streams, and casync-made fixtures, are tokenised independently and recognised; "
+        "the reconstructed node list must equal the source tree.",
+   note="SipHash-2-4 and the byte tokeniser are independent leaves in harness/oracle, validated on casync fixtures.",
+   technique="TLA+ grammar/recogniser evaluated by TLC on element traces of real archives; BST layout checked by TLC",
+   design="4/C13"),
+ "C05": dict(
+   text="On top of the C13 machinery: every archive's reconstructed node list equals the source tree, packing twice gives identical bytes, and the trees unpacked "
+        "by the real UnTar, UnTarIndex (ChunkStream + LocalStore, 64-512 byte chunks) and the tar writer are compared field by field with the source tree "
+        "(path, type, mode incl. set-id/sticky, owner, target, xattrs, device numbers, content, mtime with ns). Deviations of the unchanged code are reported as known findings.",
+   note="Three known findings (F11 directory/symlink mtimes, F18-F19 tar writer mode/device, F20 tar writer xattrs). SHA256 mode and mtree output not exercised.",
+   technique="TLA+ grammar + tree comparison evaluated by TLC on traces of real pack/unpack runs",
+   design="4/C05"),
 }
 
 NOT_YET = "check not built yet in this round (planned in DESIGN.md section 4)"
